@@ -219,6 +219,7 @@ var boundarySrc = []string{
 	"package x\n\nimport (\n\t\"strings\" // why\n\n\t// doc\n\t\"strconv\"\n)\n\n// F does.\nfunc F() string { return strings.ToUpper(strconv.Itoa(1)) }\n",
 	"package x\n\nimport \"strings\"\n\ntype T struct{ strings int }\n\nvar v = T{strings: 1}\n\nfunc F() string { return strings.ToUpper(\"a\") }\n",
 	"package x\n\nconst (\n\ta = 0X1F\n\tb = 1E3\n\tc = 0B101\n\td = 0O17\n\te = 0x1P4\n\tf = 017\n\tg = 1_000\n\th = 'a'\n\ti = `raw\n\tstring`\n)\n",
+	"package x\n\nfunc F(a, b int) int {\n\tif (a > b) {\n\t\treturn (a)\n\t}\n\tfor (a < b) {\n\t\ta++;;\n\t}\n\tswitch (a) {\n\tcase (1):\n\t}\n\t;\nL:\n\t;\n\tgoto L\n}\n\nvar s = `a\r\nb`\n",
 	"package   x\nimport   \"strings\";import \"strconv\"\nfunc  F ( )  string{return strings.ToUpper(\"a\")+strconv.Itoa( 1 )}\n",
 	"package x\n\nimport \"gno.land/p/nt/avl/v0\"\n\nvar t avl.Tree\n\nfunc F() { t.Set(\"a\", 1) }\n",
 	"package x\n\nvar t avl.Tree\n",
